@@ -41,6 +41,9 @@ var errScripted = errors.New("scripted read error")
 var errWrapsEOF = fmt.Errorf("scripted read error at a short read: %w", io.EOF)
 var useWrappedEOF int32
 
+// the same payload classes with the lexical failure placed inside a block body (the parser is then inside blockStmt's loop)
+var failInBlock int32
+
 func (it pipeItem) step() readStep {
 	var st readStep
 	if it.N == 1 {
@@ -56,7 +59,11 @@ func (it pipeItem) step() readStep {
 			sb.WriteString(" \n")
 		}
 		if it.Fail {
-			sb.WriteString("$")
+			if atomic.LoadInt32(&failInBlock) == 1 {
+				sb.WriteString("def b { f = 1\n$") // the lexical failure inside the body of a block
+			} else {
+				sb.WriteString("$")
+			}
 		}
 		st.data = []byte(sb.String())
 	}
@@ -308,6 +315,7 @@ func replayPipe(args []string) int {
 			api := []string{"ParseFile", "InterpretFile", "UnmarshalFile"}[rep%3]
 			atomic.StoreInt32(&jitterOn, int32(rep%2))
 			atomic.StoreInt32(&useWrappedEOF, int32((rep/3)%2))
+			atomic.StoreInt32(&failInBlock, int32((rep/2)%2))
 			o := runPipe(api, g, 3*time.Second)
 			o.Allowed = strings.Join(allowed, "|")
 			s.Judged++
